@@ -23,7 +23,8 @@ def rank_map(values):
 
 class Family:
     rule = ("exhaustive: every non-decreasing list of length 0-7 over a 5-value domain x 13 probes "
-            "(inside, between, outside) x 5 helpers; plus random float lists with duplicates mapped "
+            "(inside, between, outside) x 5 helpers; plus random float lists with duplicates, long lists (30-90) with runs of "
+            "duplicates, and epoch-sized values with probes fractions of a second away, all mapped "
             "order-isomorphically to integers. A case is non-trivial when the list is non-empty; "
             "distinct = distinct (helper, list, probe) triples.")
 
@@ -43,6 +44,22 @@ class Family:
             pool = [rnd.choice([rnd.random() * 10, float(rnd.randint(0, 6)), rnd.random()]) for _ in range(max(1, k // 2))]
             l = sorted(rnd.choice(pool) for _ in range(k))
             x = rnd.choice(pool + [rnd.random() * 10, -1.0, 11.0])
+            rm = rank_map(l + [x])
+            out.append((l, x, [rm[v] for v in l], rm[x]))
+        # long lists (the index holds one entry per stored point) with runs of duplicates at every offset
+        for _ in range(n // 2):
+            k = rnd.randint(30, 90)
+            dom = rnd.randint(3, 12)
+            l = sorted(float(rnd.randint(0, dom)) for _ in range(k))
+            x = float(rnd.randint(-1, dom + 1)) + rnd.choice([0.0, 0.0, 0.5])
+            rm = rank_map(l + [x])
+            out.append((l, x, [rm[v] for v in l], rm[x]))
+        # epoch-sized values (what the index stores) with probes a fraction of a second away
+        for _ in range(n // 2):
+            k = rnd.randint(1, 9)
+            base = 1.7e9 + rnd.randint(0, 10 ** 6)
+            l = sorted(base + rnd.randint(0, 8) * 0.25 for _ in range(k))
+            x = rnd.choice(l) + rnd.choice([0.0, -0.25, 0.25, -0.5, 1e-3, -1e-3, 1e-6, -1e-6])
             rm = rank_map(l + [x])
             out.append((l, x, [rm[v] for v in l], rm[x]))
         return out
